@@ -406,6 +406,14 @@ class HtmlToAst(HTMLParser):
         super().feed(source)
         return self.struct.outmost
 
+    def parse_marked_section(self, i: int, report: int = 1) -> int:
+        """Treat ``<![...`` with an unknown keyword as a bogus comment
+        (the base class raises AssertionError for it)."""
+        try:
+            return super().parse_marked_section(i, report)
+        except AssertionError:
+            return self.parse_bogus_comment(i)
+
     def handle_starttag(self, name: str, attr):
         """When found an opening tag then nest it onto the tree."""
         if name in self.void_elements:
